@@ -10,7 +10,7 @@ from vlib.pyround import to_quantum
 PID = 'C09'
 PROPERTY_FILE = 'Properties/C09.v'
 # generated model parts (translate/) this property's model / proofs really depend on
-GEN_DEPS = []
+GEN_DEPS = ['RatesImpl']
 MODEL_TARGETS = ['Corr/RatesCorr.vo']
 PROOF_TARGETS = ['Proofs/C09Proofs.vo', 'Proofs/C10MoneyProofs.vo']
 COQ_HEADER = ("From QV Require Import Model.Num Model.Rounding Model.Quantity "
